@@ -17,15 +17,17 @@ import (
 // ---------- C15: calls are pure / history independent ----------
 
 type c15World struct {
-	c       spg.CharRecipe
-	reqBack []string // the slice the caller handed to c.RequireSets (backing array kept by the caller)
-	reqOn   bool
-	w       *spg.WLRecipe
-	words   []string // the slice handed to NewWordList
-	wl      *spg.WordList
-	sfRec   spg.CharRecipe
-	sfOn    bool
-	sf      spg.SFFunction
+	c         spg.CharRecipe
+	reqBack   []string // the slice the caller handed to c.RequireSets (backing array kept by the caller)
+	reqOn     bool
+	w         *spg.WLRecipe
+	words     []string // the slice handed to NewWordList
+	wl        *spg.WordList
+	sfRec     spg.CharRecipe
+	sfOn      bool
+	sf        spg.SFFunction
+	sfReq     spg.SFFunction
+	sfReqSets []string
 }
 
 var c15Words = []string{"ab", "cd", "efg", "Ab"}
@@ -45,6 +47,10 @@ func newWorld() *c15World {
 	x.w = spg.NewWLRecipe(1, wl)
 	x.sfRec = spg.CharRecipe{Length: 1, AllowChars: "-+="}
 	x.sf = spg.NewSFFunction(x.sfRec)
+	// a separator function over a recipe whose RequireSets slice the caller
+	// keeps: {"x","x"} can be honoured with one character, {"x","y"} cannot
+	x.sfReqSets = []string{"x", "x"}
+	x.sfReq = spg.NewSFFunction(spg.CharRecipe{Length: 1, AllowChars: "xy", RequireSets: x.sfReqSets})
 	return x
 }
 
@@ -70,6 +76,8 @@ func (x *c15World) fresh() *c15World {
 	y.w.SeparatorChar = x.w.SeparatorChar
 	y.sfRec = spg.CharRecipe{Length: 1, AllowChars: "-+="}
 	y.sf = spg.NewSFFunction(y.sfRec)
+	y.sfReqSets = append([]string{}, x.sfReqSets...)
+	y.sfReq = spg.NewSFFunction(spg.CharRecipe{Length: 1, AllowChars: "xy", RequireSets: y.sfReqSets})
 	if x.w.SeparatorFunc != nil {
 		y.w.SeparatorFunc = y.sf
 	}
@@ -88,6 +96,7 @@ type c15Snap struct {
 	Kept    []string
 	Uncap   int
 	SfRec   spg.CharRecipe
+	SfReq   []string
 	// the exported package variables are caller-visible state too
 	MaxTrials   int
 	MaxFailRate float64
@@ -98,6 +107,7 @@ func (x *c15World) snap() c15Snap {
 		WLen: x.w.Length, WCap: x.w.Capitalize, WSepCh: x.w.SeparatorChar, WSepNil: x.w.SeparatorFunc == nil,
 		Words: append([]string{}, x.words...), Kept: spg.VerifWords(x.wl), Uncap: spg.VerifUncapitalizable(x.wl),
 		SfRec:     spg.CharRecipe{Length: x.sfRec.Length, AllowChars: x.sfRec.AllowChars},
+		SfReq:     append([]string{}, x.sfReqSets...),
 		MaxTrials: spg.MaxTrials, MaxFailRate: spg.MaxFailRate}
 	if x.c.RequireSets != nil {
 		s.Req = append([]string{}, x.c.RequireSets...)
@@ -163,6 +173,9 @@ func c15Ops() []c15Op {
 		{Name: "sf()", Tape: 1, Query: func(x *c15World) string {
 			return safe(func() string { s, e := x.sf(); return fmt.Sprintf("%q %08x", s, math.Float32bits(float32(e))) })
 		}},
+		{Name: "sfReq()", Tape: 1, Query: func(x *c15World) string {
+			return safe(func() string { s, e := x.sfReq(); return fmt.Sprintf("%q %08x", s, math.Float32bits(float32(e))) })
+		}},
 		{Name: "sfBad()", Tape: 0, Query: func(x *c15World) string {
 			// a separator function whose recipe cannot be honoured (two
 			// disjoint required sets, one character): the documented error path
@@ -177,6 +190,13 @@ func c15Ops() []c15Op {
 			cp.SeparatorChar = "+"
 			cp.Length = 2
 			return renderGen(runGen(cp.Generate))
+		}},
+		{Name: "sfReq's RequireSets[1] x<->y in place", Upd: func(x *c15World) {
+			if x.sfReqSets[1] == "x" {
+				x.sfReqSets[1] = "y"
+			} else {
+				x.sfReqSets[1] = "x"
+			}
 		}},
 		{Name: "c.Length 2<->3", Upd: func(x *c15World) { x.c.Length = 5 - x.c.Length }},
 		{Name: "c.Allow ^= Digits", Upd: func(x *c15World) { x.c.Allow ^= spg.Digits }},
@@ -297,6 +317,13 @@ func c15Model(x *c15World, op, got string) string {
 				return msg
 			}
 		}
+	case op == "sfReq()":
+		if x.sfReqSets[1] == "y" && got != `"" 00000000` {
+			return "the separator recipe's required sets are {x},{y} now: one character cannot satisfy both, so the function yields the empty separator with no entropy"
+		}
+		if x.sfReqSets[1] == "x" && !strings.HasPrefix(got, `"x" `) {
+			return "the separator recipe requires x (twice): the separator is x"
+		}
 	case op == "sfBad()":
 		if got != `"" 00000000` {
 			return "a separator function whose recipe is refused yields the empty separator with no entropy"
@@ -405,6 +432,15 @@ func c15CharPool() []ref.CharRecipe {
 	add(ref.CharRecipe{Allow: ref.Digits | ref.Symbols})
 	add(ref.CharRecipe{Allow: ref.Digits, Exclude: ref.Ambiguous})
 	add(ref.CharRecipe{Allow: ref.Digits, Exclude: ref.Ambiguous, ExcludeChars: "89"})
+	// nested and repeated required sets (signs of inclusion-exclusion terms),
+	// next to recipes whose counts are 0, 1 and a small power
+	add(ref.CharRecipe{AllowChars: "abcd", RequireSets: []string{"ab", "abc"}})
+	add(ref.CharRecipe{AllowChars: "abc", RequireSets: []string{"ab", "abc"}})
+	add(ref.CharRecipe{RequireSets: []string{"ab", "ab"}})
+	add(ref.CharRecipe{Allow: ref.Digits, Require: ref.Digits})
+	add(ref.CharRecipe{AllowChars: "a", RequireSets: []string{"a"}})
+	pool = append(pool, ref.CharRecipe{Length: 1, Allow: ref.Digits, Require: ref.Digits}, ref.CharRecipe{Length: 1, AllowChars: "abc", RequireSets: []string{"ab", "abc"}},
+		ref.CharRecipe{Length: 1, AllowChars: "a", RequireSets: []string{"a"}})
 	add(ref.CharRecipe{Allow: ref.Digits | ref.Symbols, Exclude: ref.Ambiguous | ref.Symbols})
 	add(ref.CharRecipe{Allow: ref.All, Exclude: ref.Ambiguous})
 	add(ref.CharRecipe{Allow: ref.Digits | ref.Symbols, Exclude: ref.Ambiguous, ExcludeChars: "@*"})
